@@ -25,6 +25,7 @@ def formOf (j : Json) : Form :=
   | "ext" => .ext (J.strD j "n" "").toList
   | "globdir" => .globDir (J.boolD j "any" false) (J.strD j "n" "").toList
   | "dirpath" => .dirPath ((J.strsD j "p").map String.toList)
+  | "anyfile" => .anyFile (J.strD j "n" "").toList
   | _ => .exact ((J.strsD j "p").map String.toList)
 
 def showPath (p : Path) : String := String.ofList (joinPath p)
